@@ -186,15 +186,18 @@ def run(ch: Choices, focus: str = "C11", params: Optional[dict] = None) -> dict:
             # the same MultiprocessingSolver instance serves two calls: the second one is the one judged
             parent = new_parent(solvers)
             first_plan = dict(plan, template="merge", start={}, stall={})
-            run_parent(ch, solvers, op, first_plan, run_worker, cache, parent=parent)
+            k1 = ch.choose(3, "first_op")  # the earlier call may be of another kind (enumeration, then optimisation, ...)
+            first_op = [["solve"], ["minimize", ch.choose(nv, "first_obj")], ["maximize", ch.choose(nv, "first_obj")]][k1]
+            run_parent(ch, solvers, first_op, first_plan, run_worker, cache, parent=parent)
             out["probes"]["second_call_on_same_instance"] += 1
+            out["probes"]["second_call_of_another_kind"] += 1 if first_op[0] != op[0] else 0
     res = run_parent(ch, solvers, op, plan, run_worker, cache, parent=parent)
     out["vtime"] += res["vtime"]
     out["probes"]["queue_gets"] += res["gets"]
     out["probes"]["messages_delivered"] += len(res["delivery_order"])
     for kf, vf in res["fired"].items():
         out["faults"][kf] += vf
-    streams = [cache[k] for k in sorted(cache)]
+    streams = res["streams"]
     ctx = f"[{out['model']} parts={[sm['shr'][sdom] for sm in sub_models]} on d{sdom} op={op} cfgs={[(c['cons'], c['var_h'], c['dom_h']) for c in cfgs]} plan={plan_str(plan)}] "
     worker_failed = False
     for st in streams:
@@ -305,6 +308,7 @@ def run_parent(ch, solvers, op, plan, run_worker, cache, parent=None) -> dict:
     res["delivered"] = list(world.delivered)
     res["undelivered"] = [m for q in world.queues for m in q.undelivered()]
     res["procs"] = world.procs
+    res["streams"] = [p.stream for p in world.procs if p.stream is not None]
     res["fired"] = dict(world.fired)
     res["log"] = [res["outcome"], res["delivery_order"], world.now, world.gets, [list(s) for s in res["yielded"]],
                   None if res["result"] is None else [int(x) for x in res["result"]]]
